@@ -444,6 +444,12 @@ def c05():
         vol, cs = gen.end_of_table_volume(rng, rng.choice([12, 16, 32]))
         sess.append(gen.fill_program(rng, "c05-eot-%d" % i, {"vol": vol}, cs, rounds=1, chunk_clusters=(1, 2), use_dirs=False))
     res.append(("sessions", core.campaign("sessions", sess, wd)))
+    # FAT16 / FAT32 volumes with only a handful of free clusters: out-of-space answers of every table width
+    nf = []
+    for i in range(scale(6, 60)):
+        vol, cs = gen.nearly_full_volume(rng, [16, 32, 12][i % 3])
+        nf.append(gen.fill_program(rng, "c05-nearfull-%d" % i, {"vol": vol}, cs, rounds=2, chunk_clusters=(1, 3), use_dirs=(i % 2 == 0)))
+    res.append(("nearly-full", core.campaign("nearly-full", nf, wd)))
     # volumes written by other implementations: reserved high bits in used and in free FAT32 entries, no usable FSInfo count (or dirty),
     # so that the count comes from a scan of the table
     frg = []
